@@ -595,3 +595,7 @@ UNITS["DNode.Less"] = dict(
     file="include/sonic/dom/dynamicnode.h", anchor=r"bool operator\(\)\(MSType s1, MSType s2\) const", cname="DNode_Less", rtype="bool", paren_skip=1,
     rules=[("m-size", r"\.size\(\)", ".size_"), ("m-data", r"\.data\(\)", ".data_"), ("std-min", r"\bmin\(", "SPEC_MIN(")],
     must_fire=["m-size", "m-data", "std-min"])
+
+# Quote's tail block (`if (nb > 0) { ... }`) as a verbatim fragment: decided on its own under the state the main loop leaves
+# (0 < nb < VEC_LEN), with constant-size objects (Quote as a whole did not get through CBMC)
+UNITS["Quote.tail"] = dict(file=QI, anchor=r"if \(nb > 0\) \{", kind="block", rules=SIMD_RULES + [("ns-std2", r"\bstd::memcpy\(", "memcpy(")])
